@@ -329,6 +329,45 @@ void run_C10(Ctx &cx) {
       cx.rep.dist("class", vh::tuple_hash({mode, (long long)vh::fnv(family.data(), family.size()), (long long)nb, carry}));
       if (cx.idx % 1999 == 0) cx.rep.sample(desc);
     }
+#if !defined(__SANITIZE_ADDRESS__)
+  // blocks at addresses that are not 4- or 16-byte aligned (only in the build without UBSan: the product's own word
+  // casts are formally misaligned there, which is outside every property and must not alarm)
+  for (int off = 1; off < 16; off++)
+    for (int mode = 0; mode < 5; mode++) {
+      if (!cx.take()) continue;
+      vh::Rng r = cx.case_rng();
+      uint8_t key[16], iv[20];
+      r.fill(key, 16);
+      r.fill(iv, 20);
+      vh::J j;
+      j.num("mode", mode).num("address_offset", off).str("key", vh::hex(key, 16)).str("iv", vh::hex(iv, 16)).str("family", "unaligned-block-address");
+      cx.begin(j.done());
+      uint8_t k2[16];
+      memcpy(k2, key, 16);
+      AesFactory fe(k2), fd(k2);
+      fe.loadiv(iv);
+      fd.loadiv(iv);
+      Aesmode *enc = fe.createCryMaster(true, (u8_t)mode), *dec = fd.createCryMaster(false, (u8_t)mode);
+      ref::Stream rs(mode, true, key, iv);
+      alignas(16) uint8_t raw[16 * 12 + 32], want[16 * 12];
+      bytes plain = r.bytes_(16 * 12);
+      uint8_t *blk = raw + off;
+      memcpy(blk, plain.data(), plain.size());
+      for (int i = 0; i < 12; i++) enc->runcry(blk + 16 * i);
+      rs.run(plain.data(), want, plain.size());
+      cx.rep.count("streams");
+      cx.rep.count("blocks_compared", 12);
+      static const char *mn[] = {"ECB", "CBC", "CTR", "CFB", "OFB"};
+      if (memcmp(blk, want, plain.size())) cx.rep.violation(std::string("C10|encrypt-mismatch|") + mn[mode] + "|unaligned-block-address", "mode encryptor differs from SP 800-38A when the block is at an unaligned address", j.done());
+      else {
+        for (int i = 0; i < 12; i++) dec->runcry(blk + 16 * i);
+        if (memcmp(blk, plain.data(), plain.size())) cx.rep.violation(std::string("C10|decrypt-not-inverse|") + mn[mode] + "|unaligned-block-address", "decryptor does not restore the input at an unaligned address", j.done());
+      }
+      delete enc;
+      delete dec;
+      cx.rep.dist("class", vh::tuple_hash({mode, 31337, off}));
+    }
+#endif
   // long streams: past 2^16 blocks (quick) / 2^24 (thorough, CTR and one other mode per shard)
   for (int mode = 0; mode < 5; mode++) {
     if (!cx.take()) continue;
